@@ -48,6 +48,8 @@ VARIANTS = {
                                   "-fno-omit-frame-pointer"),
     "tsan": dict(cc="clang", flags="-O1 -g -DORC_VERIF_HOOKS -fsanitize=thread"),
     "plain": dict(cc="gcc", flags="-O2 -g"),
+    # the optimisation level of a release build, with the trace sink (termination checks of C05)
+    "hooko2": dict(cc="gcc", flags="-O2 -g -DORC_VERIF_HOOKS"),
 }
 
 
